@@ -52,8 +52,11 @@ def gen(rng, idx, tier, seed):
         slot = int(rng.integers(1, len(spec['tracers'])))
         alt = copy.deepcopy(spec['tracers'][slot])
         alt.pop('norow', None)
-        used = {tr['id'] for tr in spec['tracers'] if tr['cat'] == alt['cat']}
-        alt['id'] = next(i for i in range(1, 40) if i not in used)
+        # a tracer table holds one row per number (offset + id)
+        off = spec['offsets'][alt['cat']]
+        used = {spec['offsets'][tr['cat']] + tr['id']
+                for tr in spec['tracers']}
+        alt['id'] = next(i for i in range(1, 40) if off + i not in used)
         alt['name'] = 'ALT%d' % alt['id']
         alt['scale'] = float(rng.choice([1.0, 1e9, 0.5]))
         spec['irregular'] = {'slot': slot, 'alt': alt}
@@ -173,8 +176,7 @@ def run_irregular(spec, res):
         try:
             f0 = bpch(path, **kw)
             res.hook('bpch.return')
-            problems += compare(f0, 'default reader bpch (%s)'
-                                % type(f0).__mro__[1].__name__)
+            problems += compare(f0, 'default reader bpch')
         except Exception as e:
             res.hook('bpch.return')
             problems.append('default reader bpch raised %r' % (e,))
